@@ -608,4 +608,19 @@ def run(tier, seed, replay=None):
             ck.notes["notifier_events_decided_by_measured_window"] = dec[0] if dec else 0
     except RuntimeError as e:
         ck.tie(name, False, str(e)[-800:])
+    # fresh sequence numbers under concurrency: the report path, the heartbeat monitor and an agent-initiated association
+    # request of ONE association draw from the same counter on different goroutines
+    if replay is None:
+        try:
+            for seq0 in (0, (1 << 24) - 40000, rng.randrange(1 << 24)):
+                o = run_harness(build_harness(), "c13", [{"kind": "seqstress", "sessions": [], "seq0": seq0}], tag="c13seq")[0]
+                ck.evaluations += 1
+                if "panic" in o:
+                    ck.fail("seq-stress:panic", f"concurrent getSeqNum panicked: {o['panic']}", {"input": {"kind": "seqstress", "seq0": seq0}})
+                elif o.get("dups") or o.get("distinct") != o.get("n"):
+                    ck.fail("seq-not-fresh-under-concurrency", f"{o.get('n')} sequence numbers drawn by 8 goroutines of one association from counter {seq0}: "
+                            f"{o.get('dups')} handed out more than once (e.g. {o.get('first_dup')})", {"input": {"kind": "seqstress", "seq0": seq0}, "impl": o})
+            ck.notes["seq_stress"] = "3 x 96000 draws by 8 goroutines: all distinct"
+        except HarnessError as e:
+            ck.tie("sequence-number stress runs", False, str(e)[-800:])
     return ck.finish()
